@@ -11,12 +11,38 @@ import (
 	"testing"
 	"time"
 
+	dtls "github.com/pion/dtls/v3"
 	"github.com/pion/dtls/v3/internal/zzverif/lib/pbt"
 	"github.com/pion/dtls/v3/internal/zzverif/lib/ref"
 	"github.com/pion/dtls/v3/internal/zzverif/lib/scen"
 	"github.com/pion/dtls/v3/internal/zzverif/lib/vnet"
 	"pgregory.net/rapid"
 )
+
+// exporterPublic reports how an exporter output can be recomputed from what a passive observer
+// knows (the hello randoms and constants): every formula of the exporter family keyed by public bytes.
+func exporterPublic(got []byte, label string, cr, sr []byte) string {
+	publicKeys := [][]byte{nil, {}, make([]byte, 32), make([]byte, 48), cr, sr, append(append([]byte(nil), cr...), sr...)}
+	for _, hn := range []string{"sha256", "sha384"} {
+		h := ref.HashByName(hn)
+		for _, k := range publicKeys {
+			for _, seeds := range [][2][]byte{{cr, sr}, {sr, cr}} {
+				if bytes.Equal(got, ref.Exporter12(h, k, label, seeds[0], seeds[1], len(got))) {
+					return fmt.Sprintf("equals PRF_%s(key=%d public bytes, label || hello randoms): computable from the cleartext of the handshake", hn, len(k))
+				}
+			}
+		}
+		for _, su := range ref.Suites13 {
+			for _, k := range publicKeys {
+				if len(k) > 0 && bytes.Equal(got, ref.Exporter13(su, k, label, nil, len(got))) {
+					return "equals the RFC 8446 exporter keyed with public bytes"
+				}
+			}
+		}
+	}
+
+	return ""
+}
 
 func TestMain(m *testing.M) { pbt.Main(m, "C07") }
 
@@ -88,6 +114,29 @@ func run(c Case, r *pbt.R) {
 		cEP, sEP := epsFor(&c)
 		env := scen.NewEnv()
 		env.Log = &scen.LogSink{Keep: os.Getenv("VERIF_DEBUG") != ""}
+		// applications also export from the State handed to their VerifyConnection callback, i.e.
+		// in the middle of the handshake: such an export must fail or be keyed by a secret too
+		type midExport struct {
+			side, label string
+			val         []byte
+		}
+		var mid []midExport
+		var midMu sync.Mutex
+		midCB := func(side string) func(*dtls.State) error {
+			return func(st *dtls.State) error {
+				for _, label := range []string{"EXTRACTOR-dtls_srtp", "EXPORTER-verif-mid"} {
+					if v, err := st.ExportKeyingMaterial(label, nil, 40); err == nil {
+						midMu.Lock()
+						mid = append(mid, midExport{side, label, v})
+						midMu.Unlock()
+					}
+				}
+
+				return nil
+			}
+		}
+		env.ExtraClient = append(env.ExtraClient, dtls.WithVerifyConnection(midCB("C")))
+		env.ExtraServer = append(env.ExtraServer, dtls.WithVerifyConnection(midCB("S")))
 		p := scen.NewPair(env, &cEP, &sEP)
 		defer p.Close()
 		p.Net.Faults["C"] = c.FC
@@ -289,6 +338,19 @@ func run(c Case, r *pbt.R) {
 			}
 		}
 		// ---- (4) exporter is keyed by a session secret
+		if cr, sr, _, ok := scen.HelloRandoms(p); ok {
+			midMu.Lock()
+			for _, m := range mid {
+				r.Class("mid-handshake-export-succeeds")
+				if how := exporterPublic(m.val, m.label, cr, sr); how != "" {
+					r.Failf("C07|"+ver+"|exporter-public|mid-handshake", "%s: ExportKeyingMaterial(%q) on the State passed to VerifyConnection %s", m.side, m.label, how)
+					midMu.Unlock()
+
+					return
+				}
+			}
+			midMu.Unlock()
+		}
 		if established {
 			cr, sr, _, ok := scen.HelloRandoms(p)
 			stC, ok1 := p.C.Conn.ConnectionState()
@@ -298,28 +360,10 @@ func run(c Case, r *pbt.R) {
 					if err != nil {
 						continue
 					}
-					// public-only recomputations: every formula of the family keyed by something an observer knows
-					publicKeys := [][]byte{nil, {}, make([]byte, 32), make([]byte, 48), cr, sr, append(append([]byte(nil), cr...), sr...)}
-					for _, hn := range []string{"sha256", "sha384"} {
-						h := ref.HashByName(hn)
-						for _, k := range publicKeys {
-							for _, seeds := range [][2][]byte{{cr, sr}, {sr, cr}} {
-								if bytes.Equal(got, ref.Exporter12(h, k, label, seeds[0], seeds[1], 40)) {
-									r.Failf("C07|"+ver+"|exporter-public", "ExportKeyingMaterial(%q) equals PRF_%s(key=%d public bytes, label || hello randoms): computable from the cleartext of the handshake", label, hn, len(k))
+					if how := exporterPublic(got, label, cr, sr); how != "" {
+						r.Failf("C07|"+ver+"|exporter-public", "ExportKeyingMaterial(%q) %s", label, how)
 
-									return
-								}
-							}
-						}
-						for _, su := range ref.Suites13 {
-							for _, k := range publicKeys {
-								if len(k) > 0 && bytes.Equal(got, ref.Exporter13(su, k, label, nil, 40)) {
-									r.Failf("C07|"+ver+"|exporter-public", "ExportKeyingMaterial(%q) equals the RFC 8446 exporter keyed with public bytes", label)
-
-									return
-								}
-							}
-						}
+						return
 					}
 					if !is13 && dec != nil {
 						want := ref.Exporter12(ref.HashByName(dec.S12.PRF), dec.Master, label, cr, sr, 40)
